@@ -5,6 +5,8 @@ import (
 	"strings"
 )
 
+const rc = "connectrpc.com/conformance/internal/app/referenceclient."
+
 func registry() []PropSpec {
 	return []PropSpec{
 		{
@@ -70,7 +72,7 @@ func registry() []PropSpec {
 		{
 			ID: "C13",
 			Quick: []HarnessSpec{
-				{Pkg: pkgRefClient, Func: "H13e_q", Unwind: 12, Note: "examineWireDetails dispatch: 9 content types (Connect unary/stream, gRPC-Web, gRPC, others), status 200/400, HTTP trailer present or not, body-data event, end-stream event, trace error; the four examiners are recorders symbolically (natively the real ones run on well-formed contents)"},
+				{Pkg: pkgRefClient, Func: "H13e_q", Unwind: 12, Only: []string{rc + "examineConnectError=vModelExamineConnectError", rc + "examineConnectEndStream=vModelExamineConnectEndStream", rc + "examineGRPCEndStream=vModelExamineGRPCEndStream", rc + "checkGRPCStatus=vModelCheckGRPCStatus"}, Note: "examineWireDetails dispatch: 9 content types (Connect unary/stream, gRPC-Web, gRPC, others), status 200/400, HTTP trailer present or not, body-data event, end-stream event, trace error; the four examiners are recorders symbolically (natively the real ones run on well-formed contents)"},
 				{Pkg: pkgRefClient, Func: "H13a_q", Unwind: 24, Note: "checkGRPCStatus on grpc-status 1..16 and grpc-message = PercentEncodeMessage(m) / m itself, for every byte string m of length <=3"},
 				{Pkg: pkgRefClient, Func: "H13b_q", Unwind: 20, Note: "isValidHTTPFieldName / isValidHTTPFieldValue on every byte string of length <=2"},
 				{Pkg: pkgRefClient, Func: "H13c_q", Unwind: 24, Split: []SplitDim{{"rawlen", 0, 5}, {"lf#0", 0, 1}, {"lf#1", 0, 1}, {"lf#2", 0, 1}, {"lf#3", 0, 1}, {"lf#4", 0, 1}}, CaseNote: "case split: length and the set of LF positions (line structure); all other bytes symbolic over {a, A, colon, space, CR}", Note: "examineGRPCEndStream crash freedom on strings <=5 bytes over {a, A, colon, space, CR, LF}"},
@@ -100,7 +102,7 @@ func registry() []PropSpec {
 				{Pkg: pkgRefServer, Func: "H17c_q", Unwind: 10, Note: "rawResponseWriter: every sequence of <=4 operations from {Write, WriteHeader, Flush, setRawResponse}"},
 				{Pkg: pkgRefServer, Func: "H17d_q", Unwind: 10, Note: "rawResponseWriter.finish: status unset/201/503, 2 raw header values, 1 trailer, unary identity body of <=2 symbolic bytes, a handler-set header and a handler write that must not survive"},
 				{Pkg: pkgInternal, Func: "H17a_q", Unwind: 12, UnwindFor: map[string]int{"h17a": 44}, Note: "WriteRawStreamContents/WriteRawMessageContents, identity compression: <=2 items, flags 0..300, explicit length any uint32 or computed, payload <=2 symbolic bytes or absent; destination is a recording WriteCloser"},
-				{Pkg: pkgInternal, Func: "H17e_q", Unwind: 12, UnwindFor: map[string]int{"H17e_q": 44}, Note: "WriteRawMessageContents with per-item compression: compression 0..7 (unspecified, identity, 5 algorithms, unknown), data absent / binary / binary message / text, payload of 0..2 symbolic bytes; compressors are a framing model symbolically (header byte, payload, trailer byte on Close) and the real ones natively"},
+				{Pkg: pkgInternal, Func: "H17e_q", Unwind: 12, Only: []string{"connectrpc.com/conformance/internal/compression.GetCompressor=vModelGetCompressor"}, UnwindFor: map[string]int{"H17e_q": 44}, Note: "WriteRawMessageContents with per-item compression: compression 0..7 (unspecified, identity, 5 algorithms, unknown), data absent / binary / binary message / text, payload of 0..2 symbolic bytes; compressors are a framing model symbolically (header byte, payload, trailer byte on Close) and the real ones natively"},
 			},
 			Stubs: []string{"destination writer = recording stub with a Close method", "bytes.Buffer modelled on its fields"},
 			Out:   []string{"non-identity compressions (third-party code; C20)", "rawRequestSender.RoundTrip (net/http, io.Pipe, goroutines), real sockets"},
